@@ -265,10 +265,10 @@ type c25Case struct {
 	Fork   *[3]int `json:"fork,omitempty"` // fork-order case: events e1, e2 on P and e3 on step(P,e1)
 	// guarantee-shape case: one more block (event Ev for root/theta) whose guarantees carry package
 	// hashes that share their first Share bytes, listed in the order Order (indices by ascending hash)
-	// sentinel-value chain: after Events, one block per code (root*9 + g*3 + th over the alphabets
+	// sentinel-value chain: after Events, one block per code (root*12 + g*4 + th over the alphabets
 	// root ∈ {all-zero, r1, r2}, g ∈ {none, one package with all-zero hash and exports root, one
 	// package with a hash that is the same in every block}, θ′ ∈ {∅, one all-zero output of service 0,
-	// one output that is the same in every block})
+	// one output that is the same in every block, two different outputs of one and the same service})
 	Sent  []int      `json:"sent,omitempty"`
 	Shape *c25GShape `json:"shape,omitempty"`
 	Ev    int        `json:"ev,omitempty"`
@@ -340,7 +340,7 @@ func c25BlockG(d int, ev int, parent c25Hash, shape *c25GShape) (types.Block, c2
 
 // block d of a sentinel-value chain (values that collide with placeholders or with the previous block)
 func c25BlockSent(d int, code int, parent c25Hash) (types.Block, c25Hash, []c25Rep, []c25Theta) {
-	root, g, th := code/9, (code/3)%3, code%3
+	root, g, th := code/12, (code/4)%3, code%4
 	var pr c25Hash // root 0: the all-zero parent state root (same bytes as the H^0 placeholder)
 	if root > 0 {
 		pr = c25Fill(0x50+byte(root), 0, 0)
@@ -363,6 +363,9 @@ func c25BlockSent(d int, code int, parent c25Hash) (types.Block, c25Hash, []c25R
 		theta = []c25Theta{{Svc: 0}} // all-zero output of service 0: the encoding is 36 zero bytes
 	case 2:
 		theta = []c25Theta{{Svc: 7, Hash: c25Fill(0x97, 0, 0)}} // identical in every block
+	case 3:
+		// one service with two different outputs in one block: two leaves of the output root
+		theta = []c25Theta{{Svc: 7, Hash: c25Fill(0x91, 0, 1)}, {Svc: 7, Hash: c25Fill(0x92, 0, 2)}}
 	}
 	hdr := types.Header{
 		Parent:          types.HeaderHash(parent),
@@ -451,13 +454,13 @@ func c25Run(r *vlib.Run, c c25Case, checkFrom int) string {
 			r.Class(fmt.Sprintf("prior=%s dropped=%v g=%d theta=%d mmr-merges=%d", c25LenClass(priorLen), priorLen == c25H, len(reps), len(theta), priorPeaks+1-nowPeaks))
 			if d >= len(c.Events) {
 				code := c.Sent[d-len(c.Events)]
-				r.Class(fmt.Sprintf("sentinel prior=%s root=%d g=%d theta=%d (0=all-zero)", c25LenClass(priorLen), code/9, (code/3)%3, code%3))
+				r.Class(fmt.Sprintf("sentinel prior=%s root=%d g=%d theta=%d (0=all-zero)", c25LenClass(priorLen), code/12, (code/4)%3, code%4))
 			}
 			r.State(ref.canon())
 		}
 		where := fmt.Sprintf("history %v block %d (prior length %d)", c.Events, d, priorLen)
 		if len(c.Sent) > 0 {
-			where = fmt.Sprintf("history %v followed by sentinel-value blocks %v (code = root*9+g*3+θ; 0 = all-zero, 2 = same as previous block), block %d (prior length %d)", c.Events, c.Sent, d, priorLen)
+			where = fmt.Sprintf("history %v followed by sentinel-value blocks %v (code = root*12+g*4+θ; 0 = all-zero, 2 = same as previous block, θ=3 = one service with two outputs), block %d (prior length %d)", c.Events, c.Sent, d, priorLen)
 		}
 		bad := !c25Compare(r, c, key, where, got, ref, before, len(theta), priorPeaks)
 		if bad {
@@ -777,7 +780,7 @@ func TestVerif_C25(t *testing.T) {
 	// ---- sentinel-value chains: all-zero and equal-to-previous values in every position ----
 	sentLen := vlib.Pick(r, 3, 4)
 	for _, pre := range [][]int{{}, {0, 17, 5, 13, 8, 2, 16}} {
-		vlib.Sequences(27, sentLen, func(q []int) {
+		vlib.Sequences(36, sentLen, func(q []int) {
 			idx++
 			if !r.Mine(idx) {
 				return
